@@ -412,8 +412,19 @@ func transTypeLfd(transTV func(TypeVar) FType, lfd LetFuncDef) LetFuncDef {
 	return LetFuncDef{Fvar: nfvar, Params: nparams, Body: nbody}
 }
 
-func resolveOneTypeVar(rsv Resolver, tv TypeVar) FType {
-	recurse := (func(_r0 TypeVar) FType { return resolveOneTypeVar(rsv, _r0) })
+func resolveGuarded(visiting dict.Dict[string, bool], name string, recurse func(TypeVar) FType, rcand FType) FType {
+	on, _ := frt.Destr2(dict.TryFind(visiting, name))
+	frt.IfOnly(on, (func() {
+		frt.PipeUnit(frt.Sprintf1("Cyclic type is not supported: %s", name), PanicNow)
+	}))
+	dict.Add(visiting, name, true)
+	res := transTVFType(recurse, rcand)
+	dict.Add(visiting, name, false)
+	return res
+}
+
+func resolveOneTypeVarV(visiting dict.Dict[string, bool], rsv Resolver, tv TypeVar) FType {
+	recurse := (func(_r0 TypeVar) FType { return resolveOneTypeVarV(visiting, rsv, _r0) })
 	ei := rsLookupEI(rsv, tv.Name)
 	rcand := ei.resType
 	switch _v15 := (rcand).(type) {
@@ -422,11 +433,16 @@ func resolveOneTypeVar(rsv Resolver, tv TypeVar) FType {
 		return frt.IfElse(frt.OpEqual(tv2.Name, tv.Name), (func() FType {
 			return rcand
 		}), (func() FType {
-			return transTVFType(recurse, rcand)
+			return resolveGuarded(visiting, tv.Name, recurse, rcand)
 		}))
 	default:
-		return transTVFType(recurse, rcand)
+		return resolveGuarded(visiting, tv.Name, recurse, rcand)
 	}
+}
+
+func resolveOneTypeVar(rsv Resolver, tv TypeVar) FType {
+	visiting := dict.New[string, bool]()
+	return resolveOneTypeVarV(visiting, rsv, tv)
 }
 
 func resolveType(rsv Resolver, ftp FType) FType {
